@@ -15,7 +15,7 @@ pub fn def() -> PropertyDef {
     PropertyDef {
         id: "C06",
         level: "exploration",
-        props: |_| vec![Box::new(MlsaSpectrum) as Box<dyn DynProp>, Box::new(MlsaAfterHistory) as Box<dyn DynProp>],
+        props: |_| vec![Box::new(MlsaSpectrum) as Box<dyn DynProp>, Box::new(MlsaAfterHistory) as Box<dyn DynProp>, Box::new(AfterFrames(0)) as Box<dyn DynProp>],
         extra: no_extra,
         replay_custom: no_custom,
         assumptions: &[
@@ -278,6 +278,133 @@ impl Prop for MlsaAfterHistory {
         );
         rep.nontrivial = !c.history.is_empty();
         rep.class(format!("history:{}", c.mode.split(':').next().unwrap_or("")));
+        Ok(rep)
+    }
+}
+
+/// History with LONG frames: after one or two frames of another spectrum, three frames of the
+/// measured spectrum follow on the same vocoder; the response to the pulse of the last one (start
+/// and target coefficients both those of the measured spectrum) must be the response of a vocoder
+/// that never saw anything else. `family`: 0 mel-cepstral (C06), 1 mel-cepstral with postfilter
+/// (C14), 2 LSP (C13).
+#[derive(Debug, Clone, Serialize)]
+pub struct FramesCase {
+    pub rate: usize,
+    pub alpha: f64,
+    pub beta: f64,
+    pub stage: usize,
+    pub use_log_gain: bool,
+    pub spectrum: Vec<f64>,
+    pub prior: Vec<Vec<f64>>,
+    pub n_stationary: usize,
+}
+
+pub struct AfterFrames(pub usize);
+
+impl Prop for AfterFrames {
+    type Case = FramesCase;
+    fn name(&self) -> String {
+        ["mlsa-after-frames", "postfilter-after-frames", "lsp-after-frames"][self.0].into()
+    }
+    fn rule(&self) -> String {
+        format!(
+            "{}: one vocoder renders 1..2 long frames (20 Hz, frame length floor(T0)-2) of another spectrum (mel-cepstral: independent, or differing in a subset of the coefficients; LSP: a neighbouring legal set - frequencies moved by < 1/5 of the minimal gap, another gain), then 2..4 frames of the measured stationary spectrum; the pulse response in the last frame must equal the frame-2 response of a fresh vocoder that only ever saw the measured spectrum (1e-6 of its peak). Cases whose response outlasts half a frame are rejected. Non-trivial: every admitted case",
+            ["mel-cepstral vocoder, vector length 2..30, beta 0", "mel-cepstral vocoder with postfilter beta in (0,0.5], vector length 3..30", "LSP vocoder, order 2..16, stage 1..4"][self.0]
+        )
+    }
+    fn tape_len(&self, _: Tier) -> usize {
+        8 * 32 * 3 + 64
+    }
+    fn cases(&self, tier: Tier) -> u32 {
+        tier.pick(1_000, 20_000)
+    }
+    fn decode(&self, t: &mut Tape, _: Tier) -> FramesCase {
+        let rate = *t.pick(&[16000usize, 8000, 22050, 48000]);
+        let alpha = gen_alpha(t);
+        let (stage, use_log_gain, beta) = match self.0 {
+            0 => (0, false, 0.0),
+            1 => (0, false, t.uniform(0.05, 0.5)),
+            _ => (t.urange(1, 4), t.chance(0.5), 0.0),
+        };
+        let gen = |t: &mut Tape| -> Vec<f64> {
+            if stage == 0 {
+                let len = t.urange(if beta > 0.0 { 3 } else { 2 }, 30);
+                let target = t.uniform(0.2, 1.6) / (1.0 + beta);
+                gen_cepstrum(t, len, alpha, target)
+            } else {
+                let m = t.urange(2, 16);
+                let g = t.log_uniform(0.3, 3.0);
+                let mut l = vec![if use_log_gain { g.ln() } else { g }];
+                l.extend(super::c13::gen_lsp(t, m));
+                l
+            }
+        };
+        let spectrum = gen(t);
+        let nprior = t.urange(1, 2);
+        let prior: Vec<Vec<f64>> = (0..nprior)
+            .map(|_| {
+                if stage != 0 {
+                    // LSP: a NEIGHBOURING legal set (frequencies moved by less than a fifth of the
+                    // minimal gap, another gain). Independent sets are not used: the vocoder
+                    // interpolates filter coefficients linearly inside the transition frame, which
+                    // between two unrelated all-pole filters can pass through unstable ones and
+                    // leave an astronomically large filter state behind (observed 1e204)
+                    let m = spectrum.len() - 1;
+                    let min_gap = std::f64::consts::PI / (4.0 * (m as f64 + 1.0));
+                    let mut o = spectrum.clone();
+                    for w in o.iter_mut().skip(1) {
+                        *w += t.uniform(-0.2, 0.2) * min_gap;
+                    }
+                    let f = t.uniform(0.7, 1.4);
+                    o[0] = if use_log_gain { o[0] + f.ln() } else { o[0] * f };
+                    o
+                } else if t.chance(0.5) {
+                    // another cepstrum of the same length
+                    let o = gen(t);
+                    if o.len() == spectrum.len() { o } else { spectrum.iter().enumerate().map(|(i, v)| v * 0.5 + 0.1 / (1.0 + i as f64)).collect() }
+                } else {
+                    // differs in a subset of the coefficients only
+                    let mut o = spectrum.clone();
+                    let k = t.below(o.len());
+                    o[k] += t.uniform(0.05, 0.4) * if t.chance(0.5) { 1.0 } else { -1.0 };
+                    o
+                }
+            })
+            .collect();
+        FramesCase { rate, alpha, beta, stage, use_log_gain, spectrum, prior, n_stationary: t.urange(2, 4) }
+    }
+    fn check(&self, c: &FramesCase) -> Result<Report, Failure> {
+        let fresh = measure_pulse(&c.spectrum, c.stage, c.use_log_gain, c.rate, c.alpha, c.beta, 1.0);
+        if fresh.frame1.iter().any(|x| !x.is_finite()) {
+            return Ok(Report::rejected("non-finite-response"));
+        }
+        {
+            let r = &fresh.frame1;
+            let q = r.len() / 2;
+            let tail: f64 = r[q..].iter().map(|x| x * x).sum();
+            let total: f64 = r.iter().map(|x| x * x).sum();
+            if !(tail <= 1e-18 * total) {
+                return Ok(Report::rejected("response-longer-than-half-a-frame"));
+            }
+        }
+        let after = crate::dsp::measure_pulse_after_frames(&c.prior, &c.spectrum, c.n_stationary, c.stage, c.use_log_gain, c.rate, c.alpha, c.beta);
+        let n = after.len().min(fresh.frame2.len());
+        if n < 64 {
+            return Ok(Report::rejected("pulse-too-close-to-the-frame-end"));
+        }
+        let scale = fresh.frame2[..n].iter().fold(0.0f64, |a, x| a.max(x.abs()));
+        let dmax = (0..n).fold(0.0f64, |a, i| a.max((after[i] - fresh.frame2[i]).abs()));
+        let mut rep = Report::new();
+        rep.metric("max_time_domain_error_rel", dmax / scale);
+        ensure!(
+            dmax.is_finite() && dmax <= 1e-6 * scale,
+            "frame-history-dependence",
+            "after {} frame(s) of another spectrum and {} stationary frames the pulse response differs from a fresh vocoder's stationary response by {:e} of its peak (stage {}, alpha {}, beta {}, vector length {})",
+            c.prior.len(), c.n_stationary, dmax / scale, c.stage, c.alpha, c.beta, c.spectrum.len()
+        );
+        rep.nontrivial = true;
+        rep.class(format!("prior-frames:{}", c.prior.len()));
+        rep.class(format!("stationary-frames:{}", c.n_stationary));
         Ok(rep)
     }
 }
